@@ -278,6 +278,7 @@ def r_initcover(db, rep):
 
 # ---------------------------------------------------------------------------------------------------
 import symx
+from symx import canon, mk_op, C
 from rules_serial import SeqBuilder
 
 RMW_PRIMS = {"set_field", "bitset", "bitclean", "set_var_field", "bitzero"}
@@ -543,6 +544,14 @@ def r_byteindex(db, rep):
                 continue
             # an access under a test of ANOTHER byte-indexed table at the same index is that table's business (occ[] under alphabet[])
             sites.setdefault((f.rec, bp[1]), []).append((f, n))
+    field_writes = {}
+    for g in db.funcs.values():
+        if not g.body:
+            continue
+        for lv, w in written_lvalues(g):
+            s0 = strip(lv)
+            if s0["k"] == "MemberExpr" and w.get("op") == "=" and w.get("rhs") is not None:
+                field_writes.setdefault(s0.get("n"), []).append((g, lv, w))
     for (rec, fld), accs in sorted(sites.items(), key=str):
         fd = db.field(rec, fld) if rec else None
         if fd is None:
@@ -577,10 +586,8 @@ def r_byteindex(db, rep):
             continue
         # every allocation of the field, in any function
         allocs = []
-        for g in db.funcs.values():
-            if not g.body:
-                continue
-            for lv, w in written_lvalues(g):
+        for g, lv, w in field_writes.get(fld, []):
+            if True:
                 s = strip(lv)
                 if s["k"] != "MemberExpr" or s.get("n") != fld or w.get("op") != "=" or w.get("rhs") is None:
                     continue
@@ -707,3 +714,64 @@ def r_refcount(db, rep):
                             rep.viol("%s#double-acquire:%s" % (ctor.qn, sp.split("::")[-1]), ctor.loc,
                                      "%s can call %s->use() twice: the shared table is never released" % (ctor.qn, sp), ctor.qn)
                             break
+
+
+@rule("R-SCANLEN", 2, "a loop that summarises an array into object state (alphabet flags, maximum symbol) scans exactly the prefix that the same "
+                      "function hands to the succinct-structure builder: loop bound = length argument (canonical symbolic form)")
+def r_scanlen(db, rep):
+    for g in sorted(db.funcs.values(), key=lambda x: (x.file, x.line)):
+        if not g.body or g.file.startswith("libcds/"):
+            continue
+        handed = []
+        for c in g.calls():
+            args = c.get("args", [])
+            frec = c.get("frec") or c.get("rec") or ""
+            if len(args) >= 2 and frec.startswith("cds_static::"):
+                p = resolved_path(g, args[0])
+                t = g.type(args[1])
+                if p is not None and t and t.get("kind") in ("int", "uint"):
+                    handed.append((p, args[1], c))
+        if not handed:
+            continue
+        sb = SeqBuilder(db, g, "c", nosubst=True)
+        for n in g.live_nodes():
+            if n["k"] != "ForStmt" or n.get("cond") is None or n.get("init") is None or n.get("body") is None:
+                continue
+            cond = strip(n["cond"])
+            if cond["k"] != "BinaryOperator" or cond["op"] not in ("<", "<="):
+                continue
+            iv = access_path(g, cond["lhs"])
+            ini = n["init"]
+            lo = None
+            if ini["k"] == "DeclStmt" and len(ini["decls"]) == 1 and ("local", ini["decls"][0].get("d")) == iv:
+                lo = const_value(ini["decls"][0].get("init"))
+            if iv is None or lo != 0:
+                continue
+            # the body reads A[i] and stores into object state
+            reads = {access_path(g, x["base"]) for x in walk(n["body"]) if x["k"] == "ArraySubscriptExpr" and access_path(g, x["idx"]) == iv}
+            writes_state = any(access_path(g, lv) is not None and access_path(g, lv)[0] == "this" and any(x is w for x in walk(n["body"]))
+                               for lv, w in written_lvalues(g))
+            if not writes_state:
+                continue
+            for p, larg, c in handed:
+                if p not in reads:
+                    continue
+                # the array itself must not be what the loop fills
+                if any(access_path(g, strip(lv)["base"]) == p for lv, w in written_lvalues(g)
+                       if strip(lv)["k"] == "ArraySubscriptExpr" and any(x is w for x in walk(n["body"]))):
+                    continue
+                B = sb.sym(cond["rhs"])
+                if cond["op"] == "<=":
+                    B = mk_op("+", B, C(1))
+                L = sb.sym(larg)
+                rep.visit(g)
+                rep.inst(g.nloc(n), "%s scans %s[0..%s) into object state; %s bits/symbols of it go to %s" % (
+                    g.qn, fmt_path(g, p), canon(B), canon(L), c.get("fn")))
+                rep.ob()
+                if symx.has_unknown(B) or symx.has_unknown(L):
+                    continue
+                wit = symx.differ_witness(B, L)
+                if wit is not None:
+                    rep.viol("%s#scan-length-%s" % (g.qn, p[-1]), g.nloc(n),
+                             "%s summarises %s over [0, %s) but builds the sequence over %s elements (e.g. %s): symbols outside the scanned "
+                             "prefix are missing from the alphabet / maximum that queries rely on" % (g.qn, fmt_path(g, p), canon(B), canon(L), wit), g.qn)
